@@ -16,7 +16,8 @@ CONFIGS = {
     "c-futex": dict(lang="c", defs=[], incs=["platform/gcc_no_tls", "platform/linux", "platform/gcc", "platform/posix", "platform/x86_64"],
                     srcs=COMMON + ["platform/posix/src/nsync_panic.c", "platform/posix/src/per_thread_waiter.c", "platform/posix/src/time_rep.c",
                                    "platform/posix/src/yield.c", "platform/linux/src/nsync_semaphore_futex.c"], hdefs=[]),
-    "c-mutexsem": dict(lang="c", defs=[], incs=["platform/gcc_no_tls", "platform/linux", "platform/gcc", "platform/posix", "platform/x86_64"],
+    # the generic posix build: compiler.h and platform.h of platform/posix come first (gcc only supplies atomic.h), a pre-C11 language mode
+    "c-mutexsem": dict(lang="c", defs=["-std=gnu99"], incs=["platform/posix", "platform/gcc", "platform/x86_64"],
                        srcs=COMMON + ["platform/posix/src/nsync_panic.c", "platform/posix/src/per_thread_waiter.c", "platform/posix/src/time_rep.c",
                                       "platform/posix/src/yield.c", "platform/posix/src/nsync_semaphore_mutex.c"], hdefs=["-DNSIM_SEM_BINARY=1"]),
     "c-semt": dict(lang="c", defs=[], incs=["platform/gcc_no_tls", "platform/linux", "platform/gcc", "platform/posix", "platform/x86_64"],
